@@ -5,6 +5,7 @@ package main
 // assertion) are compared with a native run of the same harness on the same tape.
 
 import (
+	"bytes"
 	"fmt"
 	"math/rand"
 )
@@ -167,4 +168,102 @@ func init() {
 		Bounds:      func(string) []string { return []string{"concrete interpretation vs native execution on random tapes"} },
 		Assumptions: []string{},
 	}
+}
+
+// ---------- known-answer programs for the concurrency model ----------
+
+type ctExpect struct {
+	harness  string
+	failID   string // "" = every path ends ok
+	allFail  bool   // every path must fail with failID (else: some fail, some pass)
+	zeroPass bool   // with 0 delays no path fails
+}
+
+var ctTable = []ctExpect{
+	{"H_ct_pingpong", "", false, true},
+	{"H_ct_race", "conc-race", true, false},
+	{"H_ct_deadlock", "conc-deadlock", true, false},
+	{"H_ct_order", "ct-order", false, true},
+	{"H_ct_leak", "ct-leak", true, false},
+	{"H_ct_buffered", "", false, true},
+	{"H_ct_mutex", "", false, true},
+	{"H_ct_pipeline", "", false, true},
+	{"H_ct_closerace", "conc-race", true, false},
+}
+
+// cmdSelftestConc runs the known-answer programs under 0 and 2 delays, compares the verdicts with
+// the table and replays one tape of each natively under the Go race detector.
+func cmdSelftestConc() int {
+	var jobs []*Job
+	for _, e := range ctTable {
+		for _, d := range []int{0, 2} {
+			j := mkJob(fmt.Sprintf("%s-d%d", e.harness, d), e.harness, "", "verif,noasm", P())
+			j.Delays = d
+			jobs = append(jobs, j)
+		}
+	}
+	s := NewSched(20000)
+	s.maxFailures = 1 << 30
+	s.runAll(jobs, 8)
+	bad := 0
+	var tapes []*Tape
+	for i, j := range jobs {
+		e := ctTable[i/2]
+		d := j.Delays
+		r := &j.res
+		nfail := 0
+		for _, f := range r.Failures {
+			if hasPrefix(f.ID, e.failID) && e.failID != "" {
+				nfail++
+			} else {
+				fmt.Printf("SELFTEST-CONC FAIL %s: unexpected failure %s\n", j.ID, f.ID)
+				bad++
+			}
+		}
+		nok := r.EndCounts["ok"]
+		switch {
+		case e.failID == "" && (nfail != 0 || nok != r.Paths):
+			fmt.Printf("SELFTEST-CONC FAIL %s: expected every path to pass, got %v\n", j.ID, r.EndCounts)
+			bad++
+		case e.failID != "" && e.allFail && (nfail != r.Paths || r.Paths == 0):
+			fmt.Printf("SELFTEST-CONC FAIL %s: expected every path to fail %s, got %d of %d (%v)\n", j.ID, e.failID, nfail, r.Paths, r.EndCounts)
+			bad++
+		case e.failID != "" && !e.allFail && d == 0 && nfail != 0:
+			fmt.Printf("SELFTEST-CONC FAIL %s: %s must not fail without a delay\n", j.ID, e.failID)
+			bad++
+		case e.failID != "" && !e.allFail && d > 0 && (nfail == 0 || nok == 0):
+			fmt.Printf("SELFTEST-CONC FAIL %s: expected passing and failing schedules, got %v\n", j.ID, r.EndCounts)
+			bad++
+		}
+		if len(r.Inconclusive) > 0 {
+			fmt.Printf("SELFTEST-CONC FAIL %s: inconclusive: %v\n", j.ID, r.Inconclusive[0])
+			bad++
+		}
+		if d == 2 {
+			if e.failID != "" && e.allFail && len(r.Failures) > 0 {
+				tapes = append(tapes, r.Failures[0].Tape)
+			} else if e.failID == "" && len(r.Witnesses) > 0 {
+				tapes = append(tapes, r.Witnesses[0])
+			}
+		}
+		fmt.Printf("selftest-conc %s: paths=%d ends=%v failures=%d\n", j.ID, r.Paths, r.EndCounts, len(r.Failures))
+	}
+	var log bytes.Buffer
+	outs, err := replayTapesOpt(tapes, "", "verif,noasm", &log, true)
+	if err != nil {
+		fmt.Println("SELFTEST-CONC FAIL native replay:", err)
+		return 1
+	}
+	for i, tp := range tapes {
+		ok, why := judgeTape(tp, outs[i])
+		fmt.Printf("selftest-conc native %s (%s %s): confirmed=%v %s\n", tp.Job, tp.Kind, tp.Expect.Fail, ok, why)
+		if !ok {
+			bad++
+		}
+	}
+	if bad > 0 {
+		return 1
+	}
+	fmt.Println("selftest-conc: all known-answer programs behave as expected")
+	return 0
 }
